@@ -153,13 +153,13 @@ def run(ctx):
         rfields = []
         for nm, base, e in order:
             tgt = None
-            for x in load.blocks[e['_b']]['ev'][e['_i']:]:
-                if x['k'] == 'asg' and mentions_call(x.get('r'), nm):
+            for x in load.stores():
+                if x['_b'] == e['_b'] and x['_i'] >= e['_i'] and mentions_call(x.get('r'), nm):
                     tgt = strip(x['l'])
                     break
             if isinstance(tgt, dict) and tgt.get('k') == 'var':
                 v = tgt['n']
-                fld = [dstr(y['l']).split('::')[-1] for y in load.events('asg') if mentions_var(y.get('r'), v)
+                fld = [dstr(y['l']).split('::')[-1] for y in load.stores() if mentions_var(y.get('r'), v)
                        and any(mentions_field(y['l'], f) for f in ENTRY_FIELDS)]
                 rfields.append(fld[0] if fld else '?' + v)
             elif isinstance(tgt, dict):
